@@ -422,6 +422,7 @@ structure Acc where
   v09 : Verdict
   v19 : Verdict
   v20 : Verdict
+  v14 : Verdict := .na
 
 def runCase (c : Case) (secs : List (String × List String)) : Acc :=
   let idx := List.range c.steps.length
@@ -443,20 +444,21 @@ def runCase (c : Case) (secs : List (String × List String)) : Acc :=
     { fs := fs', outs := acc.outs ++ [so], prevFailed := failedTasks ctxJ log,
       v09 := acc.v09.both (c09 ctxJ acc.prevFailed ob),
       v19 := acc.v19.both (c19 ctxJ ob),
-      v20 := acc.v20.both (c20 ctxJ ob) })
+      v20 := acc.v20.both (c20 ctxJ ob),
+      v14 := acc.v14.both (c14 ctxJ ob) })
     { fs := initialFS c, outs := [], prevFailed := [], v09 := .na, v19 := .na, v20 := .na }
 
 def handle (line : String) : String :=
   match line.splitOn " | " with
   | [inp, impl] =>
     match parseCase inp with
-    | none => "BAD-CASE || C09=FAIL C19=FAIL C20=FAIL"
+    | none => "BAD-CASE || C09=FAIL C19=FAIL C20=FAIL C14=FAIL"
     | some c =>
       let secs := sectionsOf impl
       let acc := runCase c secs
       let j (f : StepOut → String) := " / ".intercalate (acc.outs.map f)
       s!"EXIT {j (·.exit)} ; NAMED {j (·.named)} ; WR {j (·.wr)} ; OUT {j (·.out)} ; JS {j (·.js)} ; OM {j (·.om)} ; TR {j (·.tr)} ; VR {j (·.vr)} ; EM {j (·.em)}" ++
-      s!" || C09={acc.v09.str} C19={acc.v19.str} C20={acc.v20.str}"
-  | _ => "BAD-LINE || C09=FAIL C19=FAIL C20=FAIL"
+      s!" || C09={acc.v09.str} C19={acc.v19.str} C20={acc.v20.str} C14={acc.v14.str}"
+  | _ => "BAD-LINE || C09=FAIL C19=FAIL C20=FAIL C14=FAIL"
 
 end Spok.Oracle.Cli
